@@ -68,7 +68,17 @@ func (uc *urlCase) decode() error {
 	return nil
 }
 
+// menus is what a URL universe is built from besides its patterns.
+type menus struct {
+	name                  string   // "" for the main universe; prefixes state keys and notes otherwise
+	single, catch         []string // full value menus
+	singleProb, catchProb []string // reduced menus of the probe URLs
+	encoders              []string // how the client spells a value (ref.go)
+	foreign               []string // request paths no pattern of the alphabet produces
+}
+
 type universe struct {
+	menus
 	pats    []pat
 	patIdx  map[string]int
 	urls    []*urlCase
@@ -90,8 +100,8 @@ func parseReq(method, raw, accept string) (*http.Request, error) {
 	return http.ReadRequest(bufio.NewReader(strings.NewReader(sb.String())))
 }
 
-func newUniverse(pats []pat) (*universe, error) {
-	u := &universe{pats: pats, patIdx: map[string]int{}, byRaw: map[string]int{}, own: make([][]int, len(pats))}
+func newUniverse(pats []pat, mn menus) (*universe, error) {
+	u := &universe{menus: mn, pats: pats, patIdx: map[string]int{}, byRaw: map[string]int{}, own: make([][]int, len(pats))}
 	for i, p := range pats {
 		u.patIdx[p.Str] = i
 	}
@@ -120,7 +130,7 @@ func newUniverse(pats []pat) (*universe, error) {
 	var firstErr error
 	for pi := range pats {
 		seen := map[int]bool{}
-		buildPaths(pi, &pats[pi], singleFull, catchFull, func(raw string, b build) {
+		buildPaths(pi, &pats[pi], mn.single, mn.catch, mn.encoders, func(raw string, b build) {
 			i, err := add(raw)
 			if err != nil {
 				if firstErr == nil {
@@ -157,7 +167,7 @@ func newUniverse(pats []pat) (*universe, error) {
 		return nil
 	}
 	for pi := range pats {
-		buildPaths(pi, &pats[pi], singleProb, catchProb, func(raw string, b build) {
+		buildPaths(pi, &pats[pi], mn.singleProb, mn.catchProb, mn.encoders, func(raw string, b build) {
 			if i, ok := u.byRaw[raw]; ok {
 				if err := markProbe(i); err != nil && firstErr == nil {
 					firstErr = err
@@ -168,7 +178,7 @@ func newUniverse(pats []pat) (*universe, error) {
 		})
 	}
 	// foreign paths that no pattern of the alphabet produces
-	for _, raw := range []string{"/c", "/a/c", "/c/c/c/c", "/a/b/a/b/a/b"} {
+	for _, raw := range mn.foreign {
 		i, err := add(raw)
 		if err == nil {
 			err = markProbe(i)
@@ -191,7 +201,7 @@ func newUniverse(pats []pat) (*universe, error) {
 		for ui, uc := range u.urls {
 			ok, _ := match(&pats[pi], uc.RawSegs, false)
 			u.strict[pi][ui] = ok
-			u.lenient[pi][ui] = ok || lenientMatch(&pats[pi], uc.RawSegs, uc.DecSegs)
+			u.lenient[pi][ui] = ok || lenientMatch(&pats[pi], uc.RawSegs, uc.DecRaw, uc.DecSegs)
 		}
 	}
 	for _, uc := range u.urls {
@@ -214,8 +224,8 @@ type mwMode int
 
 const (
 	mwNone mwMode = iota // no middleware
-	mwPre                // middleware (Use before Handle) asks ResolvePattern before calling next
-	mwPost               // middleware (Use before Handle) asks ResolvePattern after next returned
+	mwPre                // middleware (Use before Handle) asks ResolvePattern and Vars BEFORE calling next: the request is not routed yet
+	mwPost               // middleware (Use before Handle) asks ResolvePattern and Vars after next returned
 )
 
 var mwNames = []string{"none", "pre", "post"}
@@ -229,6 +239,7 @@ type obs struct {
 	MwPost   string            `json:"mwpost"`
 	MwPreN   int               `json:"mwpren"`
 	MwPostN  int               `json:"mwpostn"`
+	MwVars   map[string]string `json:"mwvars"` // Vars as told to the middleware (before next in mode pre, after next in mode post)
 	Path     string            `json:"path,omitempty"`
 	RawPath  string            `json:"rawpath,omitempty"`
 }
@@ -251,11 +262,13 @@ func (u *universe) buildMux(E []element, mode mwMode, useAfter bool) (m goahttp.
 			o, _ := r.Context().Value(obsKey).(*obs)
 			if o != nil && mode == mwPre {
 				o.MwPre = m.ResolvePattern(r)
+				o.MwVars = m.Vars(r)
 				o.MwPreN++
 			}
 			next.ServeHTTP(w, r)
 			if o != nil && mode == mwPost {
 				o.MwPost = m.ResolvePattern(r)
+				o.MwVars = m.Vars(r)
 				o.MwPostN++
 			}
 		})
@@ -438,14 +451,16 @@ func checkNotFoundBody(ct string, body []byte) (problem string) {
 // judge applies the oracle to one served request.
 //
 // Signatures are built from: the oracle clause (dispatch / vars / resolve / notfound), where
-// the value was observed, the class of the original value, whether the parsed URL carried a
-// RawPath (the router then works on the escaped path) and whether a middleware had already
-// asked ResolvePattern before routing. Patterns, paths and values themselves are not part of
-// a signature.
+// the value was observed (handler, middleware before next = before routing, middleware after
+// next), the class of the original value, whether the parsed URL carried a RawPath (the router
+// then works on the escaped path), whether a middleware had already asked before routing, and
+// whether a literal segment of the pattern concerned is spelled differently in a URL than in
+// the pattern. Patterns, paths and values themselves are not part of a signature.
 func (u *universe) judge(E []element, mode mwMode, mi, ui int, res result) (fails []failure, outcome string) {
 	uc := u.urls[ui]
 	o := res.o
 	var nStrict, nLenient, nAny int
+	escLit := false // a registered pattern that matches the path as sent has a literal the URL carries escaped
 	for _, e := range E {
 		if u.lenient[e.Pat][ui] {
 			nAny++
@@ -453,6 +468,9 @@ func (u *universe) judge(E []element, mode mwMode, mi, ui int, res result) (fail
 				nLenient++
 				if u.strict[e.Pat][ui] {
 					nStrict++
+					if u.pats[e.Pat].EscLit {
+						escLit = true
+					}
 				}
 			}
 		}
@@ -464,6 +482,10 @@ func (u *universe) judge(E []element, mode mwMode, mi, ui int, res result) (fail
 	}
 	rp := " rawpath=" + rawpathClass(uc)
 	pre := " resolved-before-routing=" + yn(mode == mwPre)
+	lit := ""
+	if escLit {
+		lit = " literal=escaped-in-url"
+	}
 
 	if len(o.Handlers) > 1 {
 		add("dispatch multiple-handlers"+rp+pre, "%d handlers were invoked for one request", len(o.Handlers))
@@ -476,7 +498,7 @@ func (u *universe) judge(E []element, mode mwMode, mi, ui int, res result) (fail
 	if len(o.Handlers) == 0 {
 		switch {
 		case nStrict > 0:
-			add("dispatch not-dispatched status="+strconv.Itoa(res.status)+rp+pre,
+			add("dispatch not-dispatched status="+strconv.Itoa(res.status)+lit+rp+pre,
 				"no handler was invoked (status %d) although %d registered %s pattern(s) match the path", res.status, nStrict, methods[mi])
 			return fails, "not-dispatched"
 		case nLenient > 0:
@@ -501,46 +523,9 @@ func (u *universe) judge(E []element, mode mwMode, mi, ui int, res result) (fail
 	h := o.Handlers[0]
 	e := E[h]
 	p := &u.pats[e.Pat]
-	switch {
-	case e.Method != mi:
-		add("dispatch wrong-method", "handler registered for %s %s was invoked for a %s request", methods[e.Method], p.Str, methods[mi])
-		return fails, "wrong-method"
-	case nStrict > 0 && !u.strict[e.Pat][ui]:
-		add("dispatch wrong-handler reached-matches-leniently="+yn(u.lenient[e.Pat][ui])+" reached="+patKind(p)+rp+pre,
-			"handler of %s was invoked, which does not match the path as sent; %d registered pattern(s) do", p.Str, nStrict)
-		return fails, "wrong-handler"
-	case nStrict == 0 && !u.lenient[e.Pat][ui]:
-		add("dispatch unmatched-handler reached="+patKind(p)+rp+pre, "handler of %s was invoked, which does not match the path under any reading", p.Str)
-		return fails, "unmatched-handler"
-	case nStrict == 0:
-		// reached under a reading the statement leaves open (trailing slash, decoded slash):
-		// nothing further is required
-		return fails, "unspecified(match only under a lenient reading) dispatched"
-	}
-	outcome = dispatchedOutcome[nStrict][kindIdx(p)]
 
-	// fast path: everything as required (no allocation); the code below re-derives the
-	// details only when something is off
-	if o.HPat == p.Str && (mode != mwPre || o.MwPre == p.Str) && (mode != mwPost || o.MwPost == p.Str) && len(o.Vars) == p.Wild {
-		good := true
-		for i, sg := range p.Segs {
-			switch sg.Kind {
-			case kParam:
-				if v, ok := o.Vars[sg.Text]; !ok || v != uc.DecRaw[i] {
-					good = false
-				}
-			case kCatch:
-				if v, ok := o.Vars[sg.Text]; !ok || v != uc.DecSuffix[i] {
-					good = false
-				}
-			}
-		}
-		if good {
-			return nil, outcome
-		}
-	}
-
-	// pattern reported to middlewares
+	// pattern reported to the handler and to middlewares: the one the handler that served the
+	// request was registered with
 	report := func(at, got string) {
 		if got == p.Str {
 			return
@@ -563,15 +548,68 @@ func (u *universe) judge(E []element, mode mwMode, mi, ui int, res result) (fail
 		}
 		add("resolve at="+at+" got="+cls+feat, "ResolvePattern (%s) = %q, the request was dispatched to the handler registered as %q", at, got, p.Str)
 	}
-	report("handler", o.HPat)
-	if mode == mwPre && o.MwPreN > 0 {
-		report("middleware-before-next", o.MwPre)
-	}
-	if mode == mwPost && o.MwPostN > 0 {
-		report("middleware-after-next", o.MwPost)
+	reportAll := func() {
+		report("handler", o.HPat)
+		if mode == mwPre && o.MwPreN > 0 {
+			report("middleware-before-next", o.MwPre)
+		}
+		if mode == mwPost && o.MwPostN > 0 {
+			report("middleware-after-next", o.MwPost)
+		}
 	}
 
-	// captured values
+	switch {
+	case e.Method != mi:
+		add("dispatch wrong-method", "handler registered for %s %s was invoked for a %s request", methods[e.Method], p.Str, methods[mi])
+		return fails, "wrong-method"
+	case nStrict > 0 && !u.strict[e.Pat][ui]:
+		add("dispatch wrong-handler reached-matches-leniently="+yn(u.lenient[e.Pat][ui])+" reached="+patKind(p)+lit+rp+pre,
+			"handler of %s was invoked, which does not match the path as sent; %d registered pattern(s) do", p.Str, nStrict)
+		return fails, "wrong-handler"
+	case nStrict == 0 && !u.lenient[e.Pat][ui]:
+		add("dispatch unmatched-handler reached="+patKind(p)+rp+pre, "handler of %s was invoked, which does not match the path under any reading", p.Str)
+		return fails, "unmatched-handler"
+	case nStrict == 0:
+		// reached under a reading the statement leaves open (trailing slash, decoded slash):
+		// which values are captured is not defined, but the pattern reported for the request
+		// is still the one its handler was registered with
+		reportAll()
+		return fails, "unspecified(match only under a lenient reading) dispatched"
+	}
+	outcome = dispatchedOutcome[nStrict][kindIdx(p)]
+	inMw := mode == mwPre || mode == mwPost
+
+	// fast path: everything as required (no allocation); the code below re-derives the
+	// details only when something is off
+	if o.HPat == p.Str && (mode != mwPre || o.MwPre == p.Str) && (mode != mwPost || o.MwPost == p.Str) && len(o.Vars) == p.Wild && (!inMw || len(o.MwVars) == p.Wild) {
+		good := true
+		for i, sg := range p.Segs {
+			want := ""
+			switch sg.Kind {
+			case kParam:
+				want = uc.DecRaw[i]
+			case kCatch:
+				want = uc.DecSuffix[i]
+			default:
+				continue
+			}
+			if v, ok := o.Vars[sg.Text]; !ok || v != want {
+				good = false
+			}
+			if inMw {
+				if v, ok := o.MwVars[sg.Text]; !ok || v != want {
+					good = false
+				}
+			}
+		}
+		if good {
+			return nil, outcome
+		}
+	}
+
+	reportAll()
+
+	// captured values, as told to the handler and as told to the middleware
 	_, caps := match(p, uc.RawSegs, false)
 	var names, wants, kinds []string
 	for _, s := range p.Segs {
@@ -595,67 +633,82 @@ func (u *universe) judge(E []element, mode mwMode, mi, ui int, res result) (fail
 		}
 		return false
 	}
-	var gotKeys []string
-	for k := range o.Vars {
-		gotKeys = append(gotKeys, k)
-	}
-	sort.Strings(gotKeys)
-	misnamed := "" // the undeclared key under which the catch-all value was found
-	hasMisnamed := false
-	for i, name := range names {
-		want := wants[i]
-		got, ok := o.Vars[name]
-		if !ok {
-			if kinds[i] == "catchall" {
-				// the catch-all capture is there, but under a name the pattern does not declare
-				for _, k := range gotKeys {
-					if !declared(k) && (k == "" || !hasMisnamed) {
-						misnamed, hasMisnamed = k, true
-						if k == "" {
-							break
+	// at = "" for the handler (signatures as they always were), else the observer's position;
+	// feat = the feature that matters there (see report)
+	checkVars := func(at string, vars map[string]string) {
+		where, feat := "", pre
+		if at != "" {
+			where, feat = " at="+at, ""
+		}
+		var gotKeys []string
+		for k := range vars {
+			gotKeys = append(gotKeys, k)
+		}
+		sort.Strings(gotKeys)
+		misnamed := "" // the undeclared key under which the catch-all value was found
+		hasMisnamed := false
+		for i, name := range names {
+			want := wants[i]
+			got, ok := vars[name]
+			if !ok {
+				if kinds[i] == "catchall" {
+					// the catch-all capture is there, but under a name the pattern does not declare
+					for _, k := range gotKeys {
+						if !declared(k) && (k == "" || !hasMisnamed) {
+							misnamed, hasMisnamed = k, true
+							if k == "" {
+								break
+							}
+						}
+					}
+				}
+				if hasMisnamed && kinds[i] == "catchall" {
+					cls := "name-of-another-registration"
+					if misnamed == "" {
+						cls = "empty-name"
+					}
+					add("vars"+where+" catchall-name got="+cls+feat, "Vars%s = %q: the catch-all of pattern %s is not under its name %q (expected value %q)", where, vars, p.Str, name, want)
+				} else {
+					add("vars"+where+" missing-key route="+kinds[i]+rp+feat, "Vars%s = %q has no key %q (pattern %s, expected %q)", where, vars, name, p.Str, want)
+				}
+				continue
+			}
+			if got != want {
+				cls := "other"
+				if d, ok := pctDecode(want); ok && d == got {
+					cls = "decoded-twice"
+				} else if d, ok := pctDecode(got); ok && d == want {
+					cls = "still-escaped"
+				}
+				add("vars"+where+" value-class="+valueClass(want)+" route="+kinds[i]+rp+" got="+cls,
+					"Vars%s[%q] = %q, the client placed %q there (pattern %s)", where, name, got, want, p.Str)
+			}
+		}
+		for _, k := range gotKeys {
+			if declared(k) || hasMisnamed && k == misnamed {
+				continue
+			}
+			cls := "unknown-name"
+			if k == "" {
+				cls = "empty-name"
+			} else {
+				for _, e2 := range E {
+					for _, s := range u.pats[e2.Pat].Segs {
+						if s.Kind != kLit && s.Text == k {
+							cls = "name-of-another-registration"
 						}
 					}
 				}
 			}
-			if hasMisnamed && kinds[i] == "catchall" {
-				cls := "name-of-another-registration"
-				if misnamed == "" {
-					cls = "empty-name"
-				}
-				add("vars catchall-name got="+cls+pre, "Vars = %q: the catch-all of pattern %s is not under its name %q (expected value %q)", o.Vars, p.Str, name, want)
-			} else {
-				add("vars missing-key route="+kinds[i]+rp+pre, "Vars = %q has no key %q (pattern %s, expected %q)", o.Vars, name, p.Str, want)
-			}
-			continue
-		}
-		if got != want {
-			cls := "other"
-			if d, ok := pctDecode(want); ok && d == got {
-				cls = "decoded-twice"
-			} else if d, ok := pctDecode(got); ok && d == want {
-				cls = "still-escaped"
-			}
-			add("vars value-class="+valueClass(want)+" route="+kinds[i]+rp+" got="+cls,
-				"Vars[%q] = %q, the client placed %q there (pattern %s)", name, got, want, p.Str)
+			add("vars"+where+" extra-key key="+cls+rp+feat, "Vars%s = %q has key %q which pattern %s does not declare", where, vars, k, p.Str)
 		}
 	}
-	for _, k := range gotKeys {
-		if declared(k) || hasMisnamed && k == misnamed {
-			continue
-		}
-		cls := "unknown-name"
-		if k == "" {
-			cls = "empty-name"
-		} else {
-			for _, e2 := range E {
-				for _, s := range u.pats[e2.Pat].Segs {
-					if s.Kind != kLit && s.Text == k {
-						cls = "name-of-another-registration"
-					}
-				}
-			}
-		}
-		add("vars extra-key key="+cls+rp+pre, "Vars = %q has key %q which pattern %s does not declare", o.Vars, k, p.Str)
+	checkVars("", o.Vars)
+	if mode == mwPre && o.MwPreN > 0 {
+		checkVars("middleware-before-next", o.MwVars)
+	}
+	if mode == mwPost && o.MwPostN > 0 {
+		checkVars("middleware-after-next", o.MwVars)
 	}
 	return fails, outcome
 }
@@ -686,6 +739,10 @@ func (u *universe) describe(E []element, mode mwMode, mi, ui, ai int, server boo
 
 func setKey(u *universe, E []element) string {
 	var sb strings.Builder
+	if u.name != "" {
+		sb.WriteString(u.name)
+		sb.WriteByte(':')
+	}
 	for _, e := range E {
 		sb.WriteString(methods[e.Method])
 		sb.WriteByte(' ')
